@@ -115,14 +115,14 @@ Definition count_open (d : dir) (s : lk_state) : nat := length (filter (bytes_eq
 
 (* ---- 1b. several processes and the advisory lock of the operating system ----
    ldb_lock_file (env_unix_impl.h, HAVE_SETLK = fcntl record locks, the variant every Linux
-   build selects):
+   build selects) as it was before fix 96e3fcf:
        fd = open(LOCK);  if ((dev,ino) in file_set) { errno = ENOLCK; goto fail; }
        if (fcntl(fd, F_SETLK, F_WRLCK) != 0) goto fail;  file_set += id;  return OK;
      fail: close(fd);
    POSIX: when a process closes ANY descriptor of a file, all record locks the process holds
-   on that file are released.  [check_first = false] is this code; [check_first = true] is
-   the variant that consults the table before opening the file (no descriptor is opened
-   and closed while the process holds the lock). *)
+   on that file are released.  [check_first = false] is that code; [check_first = true] is
+   the repaired code, which stat()s the LOCK file and consults the table BEFORE opening it
+   (no descriptor is opened and closed while the process holds the lock). *)
 Record mp_state := mkP {
   p_table : list (N * dir);      (* (process, directory): the in-process tables file_set *)
   p_os : list (N * dir);         (* (process, directory): record locks granted by the OS *)
